@@ -144,7 +144,7 @@ func (e *Engine) Prelude() string {
 (declare-fun asn1_s (Bytes) Int)
 `)
 	// slice_ok, any_ok, any_obj, any_hashable, any_typeid
-	sb.WriteString("(define-fun slice_ok ((s Slice) (alloc Int)) Bool (and (< (sarr s) alloc) (>= (soff s) 0) (>= (slen s) 0) (<= (slen s) (scap s)) (=> (= (sarr s) 0) (and (= (soff s) 0) (= (scap s) 0)))))\n")
+	sb.WriteString("(define-fun slice_ok ((s Slice) (alloc Int)) Bool (and (< (sarr s) alloc) (>= (soff s) 0) (>= (slen s) 0) (<= (slen s) (scap s)) (<= (scap s) 281474976710656) (=> (= (sarr s) 0) (and (= (soff s) 0) (= (scap s) 0)))))\n")
 	cons := e.reg.sortedAnyCons()
 	// any_obj
 	var objb strings.Builder
